@@ -101,7 +101,6 @@ func runC03Paired(c *mon.Case) {
 		return n
 	}
 	// (a) another key + the passphrase -> the paired responder
-	remN := ps.RemoteN
 	a := eng.RunHandshake(eng.HSConfig{CMin: v1[0], CMax: v1[1], SMin: v2[0], SMax: v2[1],
 		PassC: append([]byte{}, pass...), KeyC: eng.NewKey(rng), KeyS: keyS, ReuseS: ps})
 	rep["a_errors"] = fmt.Sprintf("initiator new=%v hs=%v / responder new=%v hs=%v", a.C.NewErr, a.C.Err, a.S.NewErr, a.S.Err)
@@ -123,11 +122,10 @@ func runC03Paired(c *mon.Case) {
 			fail("auth-on-wire", "the auth payload marker appears on the wire in "+form+" form")
 		}
 	}
-	if !keyEq(ps.CD.RemoteKey(), keyC.PubKey()) || ps.RemoteN != remN {
-		fail("remote-key-changed", fmt.Sprintf("the responder's stored remote key is not (any more) the one of the party it was paired with (callback ran %d more times)", ps.RemoteN-remN))
+	if !keyEq(ps.CD.RemoteKey(), keyC.PubKey()) || ps.RemoteN != 0 {
+		fail("remote-key-changed", fmt.Sprintf("the responder's stored remote key is not (any more) the one of the party it was paired with (callback ran %d more times)", ps.RemoteN))
 	}
 	// (b) the paired initiator -> another key + the passphrase
-	remN, authN := pc.RemoteN, pc.AuthCBn
 	b := eng.RunHandshake(eng.HSConfig{CMin: v1[0], CMax: v1[1], SMin: v2[0], SMax: v2[1],
 		PassS: append([]byte{}, pass...), Auth: evil, KeyC: keyC, KeyS: eng.NewKey(rng), ReuseC: pc})
 	rep["b_errors"] = fmt.Sprintf("initiator new=%v hs=%v / responder new=%v hs=%v", b.C.NewErr, b.C.Err, b.S.NewErr, b.S.Err)
@@ -139,10 +137,10 @@ func runC03Paired(c *mon.Case) {
 			fail("responder-completed", "a responder with another static key completed a handshake with the paired initiator")
 		}
 	}
-	if pc.AuthCBn != authN || !bytes.Equal(pc.CD.AuthData(), auth) {
+	if pc.AuthCBn != 0 || !bytes.Equal(pc.CD.AuthData(), auth) {
 		fail("auth-replaced", "the paired initiator accepted auth data from a responder with another static key")
 	}
-	if !keyEq(pc.CD.RemoteKey(), keyS.PubKey()) || pc.RemoteN != remN {
+	if !keyEq(pc.CD.RemoteKey(), keyS.PubKey()) || pc.RemoteN != 0 {
 		fail("remote-key-changed", "the initiator's stored remote key is not (any more) the one of the party it was paired with")
 	}
 	// (c) control: the paired parties reconnect
